@@ -885,3 +885,32 @@ Proof.
   - split; [cbn; discriminate|]. exists LReg, true, true. repeat split; left; reflexivity.
   - lia.
 Qed.
+
+(* ---- "fatal error: concurrent map writes" ------------------------------------------------ *)
+(* with the lock no run meets the condition under which the Go runtime aborts *)
+Theorem guarded_no_concurrent_map_access pk k g calls sched : calls_ok calls ->
+  ~ concurrent_map_access (events Guarded pk k g calls sched).
+Proof.
+  intros Hok (i & j & e1 & e2 & l & w1 & w2 & Hij & Hi & Hj & Ht & A1 & A2 & _ & Hw & Hno).
+  destruct (guarded_race_free pk k g calls sched Hok) as [RF _].
+  apply Hno. apply (RF i j e1 e2 Hij Hi Hj). split; [exact Ht|]. exists l, w1, w2. repeat split; assumption.
+Qed.
+
+(* without it the model meets it: thread 0 inserts into the Schemas map of package 0 (position 4)
+   while thread 1 reads that map (position 9), no lock operation in between *)
+Theorem unguarded_concurrent_map_access :
+  concurrent_map_access (events Unguarded (fun _ => 0%N) 3 [(1%N, [2%N]); (2%N, [])] [[1%N]; [1%N]] [0; 0; 0; 1; 1]).
+Proof.
+  assert (E : events Unguarded (fun _ => 0%N) 3 [(1%N, [2%N]); (2%N, [])] [[1%N]; [1%N]] [0; 0; 0; 1; 1] =
+              [EWr 0 LReg; ERd 0 LPkgs; EWr 0 LPkgs; ERd 0 (LSchemas 0); EWr 0 (LSchemas 0); EWr 0 LReg;
+               EWr 1 LReg; ERd 1 LPkgs; EWr 1 LPkgs; ERd 1 (LSchemas 0); ERd 1 (LCell 0); ERd 1 LReg;
+               EWr 1 LReg]) by (vm_compute; reflexivity).
+  rewrite E. clear E.
+  exists 4, 9, (EWr 0 (LSchemas 0)), (ERd 1 (LSchemas 0)), (LSchemas 0), true, false.
+  split; [lia|]. split; [reflexivity|]. split; [reflexivity|]. split; [cbn; discriminate|].
+  split; [reflexivity|]. split; [reflexivity|]. split; [reflexivity|]. split; [left; reflexivity|].
+  intros (r & a & H1 & H2 & H3 & Hr & Ha).
+  (* a release by thread 0 strictly between positions 4 and 9: there is no ERel at all *)
+  cbn [ev_tid] in Hr.
+  do 10 (destruct r as [|r]; [cbn in Hr; try discriminate Hr; try lia|]); lia.
+Qed.
